@@ -4,6 +4,7 @@ import Mathlib.Tactic.Ring
 import Mathlib.Tactic.FieldSimp
 import Mathlib.Tactic.IntervalCases
 import Mathlib.Algebra.Order.Field.Basic
+import Mathlib.Algebra.Order.Field.Rat
 /-! # Geometric core of C17: locating a point of an anchor's lattice triangle reproduces the digits
 
 Everything is proved over an arbitrary linearly ordered field `K` (so over `ℚ` and `ℝ`).
@@ -67,6 +68,7 @@ theorem nextF_3_mm : nextF 3 (-1, -1) = (1, -1) := by decide
 theorem isFlip_nextF (d : Nat) (hd : d < 4) (F : Int × Int) (hF : IsFlip F) : IsFlip (nextF d F) := by
   rcases hF with rfl | rfl | rfl | rfl <;> interval_cases d <;> unfold IsFlip <;> decide
 
+set_option linter.unusedSectionVars false
 section field
 variable {K : Type} [Field K] [LinearOrder K] [IsStrictOrderedRing K]
 
@@ -103,5 +105,426 @@ theorem ijq_mm (u v : K) : ijToQuaternary fieldLits u v (-1, -1) =
     if -(u + v) < 1 then 0 else if 1 < -u then 3 else if 1 < -v then 2 else 1 := by
   simp [ijToQuaternary, fieldLits, yes_eq]
 
+/-! ## the 16-case subdivision -/
+
+/-- **Subdivision.** If `q - c(d,F)` lies in the triangle of the next flip state, the classifier
+`ijToQuaternary` returns `d` on `q`. -/
+theorem subdivision (F : Int × Int) (hF : IsFlip F) (d : Nat) (hd : d < 4) (u v : K)
+    (h : InT (nextF d F) (u - ((childIJ d F).1 : K)) (v - ((childIJ d F).2 : K))) :
+    ijToQuaternary fieldLits u v F = d := by
+  rcases hF with rfl | rfl | rfl | rfl <;> interval_cases d
+  all_goals
+    simp only [childIJ_0_pp, childIJ_1_pp, childIJ_2_pp, childIJ_3_pp, childIJ_0_pm, childIJ_1_pm,
+      childIJ_2_pm, childIJ_3_pm, childIJ_0_mp, childIJ_1_mp, childIJ_2_mp, childIJ_3_mp,
+      childIJ_0_mm, childIJ_1_mm, childIJ_2_mm, childIJ_3_mm,
+      nextF_0_pp, nextF_1_pp, nextF_2_pp, nextF_3_pp, nextF_0_pm, nextF_1_pm, nextF_2_pm, nextF_3_pm,
+      nextF_0_mp, nextF_1_mp, nextF_2_mp, nextF_3_mp, nextF_0_mm, nextF_1_mm, nextF_2_mm, nextF_3_mm,
+      inT_pp, inT_pm, inT_mp, inT_mm, Int.cast_zero, Int.cast_one, Int.cast_neg, Int.cast_ofNat] at h
+    first
+      | rewrite [ijq_pp] | rewrite [ijq_pm] | rewrite [ijq_mp] | rewrite [ijq_mm]
+    split_ifs <;> first | rfl | (exfalso; linarith)
+
+/-- **Containment.** `c(d,F) + T(F·flips d) ⊆ 2·T(F)`. -/
+theorem subdivision_contained (F : Int × Int) (hF : IsFlip F) (d : Nat) (hd : d < 4) (u v : K)
+    (h : InT (nextF d F) (u - ((childIJ d F).1 : K)) (v - ((childIJ d F).2 : K))) :
+    InT F (u * (1 / 2)) (v * (1 / 2)) := by
+  rcases hF with rfl | rfl | rfl | rfl <;> interval_cases d
+  all_goals
+    simp only [childIJ_0_pp, childIJ_1_pp, childIJ_2_pp, childIJ_3_pp, childIJ_0_pm, childIJ_1_pm,
+      childIJ_2_pm, childIJ_3_pm, childIJ_0_mp, childIJ_1_mp, childIJ_2_mp, childIJ_3_mp,
+      childIJ_0_mm, childIJ_1_mm, childIJ_2_mm, childIJ_3_mm,
+      nextF_0_pp, nextF_1_pp, nextF_2_pp, nextF_3_pp, nextF_0_pm, nextF_1_pm, nextF_2_pm, nextF_3_pm,
+      nextF_0_mp, nextF_1_mp, nextF_2_mp, nextF_3_mp, nextF_0_mm, nextF_1_mm, nextF_2_mm, nextF_3_mm,
+      inT_pp, inT_pm, inT_mp, inT_mm, Int.cast_zero, Int.cast_one, Int.cast_neg, Int.cast_ofNat] at h ⊢
+    refine ⟨?_, ?_, ?_⟩ <;> try refine ⟨?_, ?_, ?_⟩
+    all_goals linarith
+
+set_option linter.unusedSimpArgs false in
+/-- one flip state of `subdivision_complete` (the cut-line hypotheses already split into `<`/`>`) -/
+local macro "subdivision_complete_tac" : tactic => `(tactic| (
+  rcases lt_or_gt_of_ne ‹_ + _ ≠ _› with h1 | h1 <;> rcases lt_or_gt_of_ne ‹u ≠ _› with h2 | h2 <;>
+    rcases lt_or_gt_of_ne ‹v ≠ _› with h3 | h3 <;> split_ifs
+  all_goals
+    refine ⟨by norm_num, ?_⟩
+    simp only [childIJ_0_pp, childIJ_1_pp, childIJ_2_pp, childIJ_3_pp, childIJ_0_pm, childIJ_1_pm,
+      childIJ_2_pm, childIJ_3_pm, childIJ_0_mp, childIJ_1_mp, childIJ_2_mp, childIJ_3_mp,
+      childIJ_0_mm, childIJ_1_mm, childIJ_2_mm, childIJ_3_mm,
+      nextF_0_pp, nextF_1_pp, nextF_2_pp, nextF_3_pp, nextF_0_pm, nextF_1_pm, nextF_2_pm, nextF_3_pm,
+      nextF_0_mp, nextF_1_mp, nextF_2_mp, nextF_3_mp, nextF_0_mm, nextF_1_mm, nextF_2_mm, nextF_3_mm,
+      inT_pp, inT_pm, inT_mp, inT_mm, Int.cast_zero, Int.cast_one, Int.cast_neg, Int.cast_ofNat]
+    refine ⟨?_, ?_, ?_⟩ <;> try refine ⟨?_, ?_, ?_⟩
+    all_goals linarith))
+
+set_option linter.unusedSimpArgs false in
+theorem subdivision_complete_pp (u v : K) (hin : InT (1, 1) (u * (1 / 2)) (v * (1 / 2)))
+    (h1 : u + v ≠ (((1, 1) : Int × Int).1 : K)) (h2 : u ≠ (((1, 1) : Int × Int).2 : K))
+    (h3 : v ≠ (((1, 1) : Int × Int).1 : K)) :
+    ijToQuaternary fieldLits u v (1, 1) < 4 ∧
+      InT (nextF (ijToQuaternary fieldLits u v (1, 1)) (1, 1))
+        (u - ((childIJ (ijToQuaternary fieldLits u v (1, 1)) (1, 1)).1 : K))
+        (v - ((childIJ (ijToQuaternary fieldLits u v (1, 1)) (1, 1)).2 : K)) := by
+  simp only [Int.cast_one, Int.cast_neg] at h1 h2 h3
+  rewrite [inT_pp] at hin
+  rewrite [ijq_pp]
+  subdivision_complete_tac
+
+set_option linter.unusedSimpArgs false in
+theorem subdivision_complete_pm (u v : K) (hin : InT (1, -1) (u * (1 / 2)) (v * (1 / 2)))
+    (h1 : u + v ≠ (((1, -1) : Int × Int).1 : K)) (h2 : u ≠ (((1, -1) : Int × Int).2 : K))
+    (h3 : v ≠ (((1, -1) : Int × Int).1 : K)) :
+    ijToQuaternary fieldLits u v (1, -1) < 4 ∧
+      InT (nextF (ijToQuaternary fieldLits u v (1, -1)) (1, -1))
+        (u - ((childIJ (ijToQuaternary fieldLits u v (1, -1)) (1, -1)).1 : K))
+        (v - ((childIJ (ijToQuaternary fieldLits u v (1, -1)) (1, -1)).2 : K)) := by
+  simp only [Int.cast_one, Int.cast_neg] at h1 h2 h3
+  rewrite [inT_pm] at hin
+  rewrite [ijq_pm]
+  subdivision_complete_tac
+
+set_option linter.unusedSimpArgs false in
+theorem subdivision_complete_mp (u v : K) (hin : InT (-1, 1) (u * (1 / 2)) (v * (1 / 2)))
+    (h1 : u + v ≠ (((-1, 1) : Int × Int).1 : K)) (h2 : u ≠ (((-1, 1) : Int × Int).2 : K))
+    (h3 : v ≠ (((-1, 1) : Int × Int).1 : K)) :
+    ijToQuaternary fieldLits u v (-1, 1) < 4 ∧
+      InT (nextF (ijToQuaternary fieldLits u v (-1, 1)) (-1, 1))
+        (u - ((childIJ (ijToQuaternary fieldLits u v (-1, 1)) (-1, 1)).1 : K))
+        (v - ((childIJ (ijToQuaternary fieldLits u v (-1, 1)) (-1, 1)).2 : K)) := by
+  simp only [Int.cast_one, Int.cast_neg] at h1 h2 h3
+  rewrite [inT_mp] at hin
+  rewrite [ijq_mp]
+  subdivision_complete_tac
+
+set_option linter.unusedSimpArgs false in
+theorem subdivision_complete_mm (u v : K) (hin : InT (-1, -1) (u * (1 / 2)) (v * (1 / 2)))
+    (h1 : u + v ≠ (((-1, -1) : Int × Int).1 : K)) (h2 : u ≠ (((-1, -1) : Int × Int).2 : K))
+    (h3 : v ≠ (((-1, -1) : Int × Int).1 : K)) :
+    ijToQuaternary fieldLits u v (-1, -1) < 4 ∧
+      InT (nextF (ijToQuaternary fieldLits u v (-1, -1)) (-1, -1))
+        (u - ((childIJ (ijToQuaternary fieldLits u v (-1, -1)) (-1, -1)).1 : K))
+        (v - ((childIJ (ijToQuaternary fieldLits u v (-1, -1)) (-1, -1)).2 : K)) := by
+  simp only [Int.cast_one, Int.cast_neg] at h1 h2 h3
+  rewrite [inT_mm] at hin
+  rewrite [ijq_mm]
+  subdivision_complete_tac
+
+/-- **Completeness of the subdivision** (converse of `subdivision` + exhaustiveness): a point of the
+doubled triangle `2·T(F)` that is on none of the three cut lines `u + v = F.1`, `u = F.2`, `v = F.1`
+lies in the piece named by `ijToQuaternary`. -/
+theorem subdivision_complete (F : Int × Int) (hF : IsFlip F) (u v : K)
+    (hin : InT F (u * (1 / 2)) (v * (1 / 2)))
+    (h1 : u + v ≠ (F.1 : K)) (h2 : u ≠ (F.2 : K)) (h3 : v ≠ (F.1 : K)) :
+    ijToQuaternary fieldLits u v F < 4 ∧
+      InT (nextF (ijToQuaternary fieldLits u v F) F)
+        (u - ((childIJ (ijToQuaternary fieldLits u v F) F).1 : K))
+        (v - ((childIJ (ijToQuaternary fieldLits u v F) F).2 : K)) := by
+  rcases hF with rfl | rfl | rfl | rfl
+  · exact subdivision_complete_pp u v hin h1 h2 h3
+  · exact subdivision_complete_pm u v hin h1 h2 h3
+  · exact subdivision_complete_mp u v hin h1 h2 h3
+  · exact subdivision_complete_mm u v hin h1 h2 h3
+
 end field
+
+/-! ## the forward walk `accumOffset` as a linear recursion -/
+
+theorem accumOffset_succ (i : Nat) (ds : List Nat) (off F : Int × Int) :
+    accumOffset (i + 1) ds off F =
+      accumOffset i ds (off.1 * 2 + (quaternaryToKJ (ds.getD i 0) F).1,
+        off.2 * 2 + (quaternaryToKJ (ds.getD i 0) F).2) (nextF (ds.getD i 0) F) := rfl
+
+theorem accumOffset_lin (m : Nat) (ds : List Nat) : ∀ (off F : Int × Int),
+    accumOffset m ds off F =
+      ((2 ^ m * off.1 + (accumOffset m ds (0, 0) F).1.1, 2 ^ m * off.2 + (accumOffset m ds (0, 0) F).1.2),
+        (accumOffset m ds (0, 0) F).2) := by
+  induction m with
+  | zero => intro off F; simp [accumOffset]
+  | succ m ih =>
+    intro off F
+    have e1 := ih (off.1 * 2 + (quaternaryToKJ (ds.getD m 0) F).1,
+      off.2 * 2 + (quaternaryToKJ (ds.getD m 0) F).2) (nextF (ds.getD m 0) F)
+    have e2 := ih ((quaternaryToKJ (ds.getD m 0) F).1, (quaternaryToKJ (ds.getD m 0) F).2)
+      (nextF (ds.getD m 0) F)
+    have e3 : accumOffset (m + 1) ds (0, 0) F =
+        accumOffset m ds ((quaternaryToKJ (ds.getD m 0) F).1, (quaternaryToKJ (ds.getD m 0) F).2)
+          (nextF (ds.getD m 0) F) := by
+      rewrite [accumOffset_succ]
+      simp only [Int.zero_mul, Int.zero_add]
+    rewrite [accumOffset_succ, e1, e3, e2]
+    refine Prod.ext (Prod.ext ?_ ?_) ?_
+    · dsimp only; ring
+    · dsimp only; ring
+    · rfl
+
+/-- the anchor (IJ offset, flips) that the forward walk builds from the lowest `m` digits of `ds`
+starting in flip state `F` -/
+def anchorOf (m : Nat) (ds : List Nat) (F : Int × Int) : (Int × Int) × (Int × Int) :=
+  (kjToIJ (accumOffset m ds (0, 0) F).1, (accumOffset m ds (0, 0) F).2)
+
+theorem anchorOf_zero (ds : List Nat) (F : Int × Int) : anchorOf 0 ds F = ((0, 0), F) := by
+  simp [anchorOf, accumOffset, kjToIJ]
+
+theorem anchorOf_succ (m : Nat) (ds : List Nat) (F : Int × Int) :
+    anchorOf (m + 1) ds F =
+      ((2 ^ m * (childIJ (ds.getD m 0) F).1 + (anchorOf m ds (nextF (ds.getD m 0) F)).1.1,
+        2 ^ m * (childIJ (ds.getD m 0) F).2 + (anchorOf m ds (nextF (ds.getD m 0) F)).1.2),
+        (anchorOf m ds (nextF (ds.getD m 0) F)).2) := by
+  unfold anchorOf
+  rewrite [accumOffset_succ, accumOffset_lin]
+  refine Prod.ext (Prod.ext ?_ ?_) rfl
+  · simp only [kjToIJ, childIJ]; ring
+  · simp only [kjToIJ, childIJ]; ring
+
+theorem getD_lt4 (ds : List Nat) (hds : ∀ d ∈ ds, d < 4) (i : Nat) : ds.getD i 0 < 4 := by
+  rewrite [List.getD_eq_getElem?_getD]
+  cases h : ds[i]? with
+  | none => simp
+  | some d => exact hds d (List.mem_of_getElem? h)
+
+theorem take_succ_getD (ds : List Nat) (m : Nat) (h : m < ds.length) :
+    ds.take (m + 1) = ds.take m ++ [ds.getD m 0] := by
+  rewrite [List.take_add_one, List.getD_eq_getElem?_getD, List.getElem?_eq_getElem h]
+  rfl
+
+section generic
+variable {α : Type} [Add α] [Sub α] [Mul α] [Neg α] [LT α] [DecidableLT α]
+
+theorem locateDigits_succ (L : Lits α) (x y : α) (i : Nat) (P : α × α) (F : Int × Int) (acc : List Nat)
+    (d : Nat) (hd : ijToQuaternary L ((x - P.1) * L.invPow2 i) ((y - P.2) * L.invPow2 i) F = d) :
+    locateDigits L x y (i + 1) P F acc =
+      locateDigits L x y i (P.1 + L.ofInt (childIJ d F).1 * L.ofInt (2 ^ i),
+        P.2 + L.ofInt (childIJ d F).2 * L.ofInt (2 ^ i)) (nextF d F) (d :: acc) := by
+  subst hd; rfl
+end generic
+
+section field2
+variable {K : Type} [Field K] [LinearOrder K] [IsStrictOrderedRing K]
+
+theorem InT_congr {F : Int × Int} {u v u' v' : K} (hu : u = u') (hv : v = v') (h : InT F u v) :
+    InT F u' v' := by subst hu; subst hv; exact h
+
+/-- the anchor triangle built from `m` digits starting in state `F` lies in `2^m · T(F)`, and the
+final flip state is again a `±1` pair -/
+theorem anchor_contained (ds : List Nat) (hds : ∀ i, ds.getD i 0 < 4) : ∀ (m : Nat) (F : Int × Int),
+    IsFlip F → IsFlip (anchorOf m ds F).2 ∧ ∀ (u v : K),
+      InT (anchorOf m ds F).2 (u - ((anchorOf m ds F).1.1 : K)) (v - ((anchorOf m ds F).1.2 : K)) →
+      InT F (u * (1 / 2 ^ m)) (v * (1 / 2 ^ m)) := by
+  intro m
+  induction m with
+  | zero =>
+    intro F hF
+    rewrite [anchorOf_zero]
+    refine ⟨hF, fun u v h => ?_⟩
+    simpa using h
+  | succ m ih =>
+    intro F hF
+    have hd := hds m
+    have hF' := isFlip_nextF _ hd F hF
+    obtain ⟨ih1, ih2⟩ := ih (nextF (ds.getD m 0) F) hF'
+    rewrite [anchorOf_succ]
+    refine ⟨ih1, fun u v h => ?_⟩
+    dsimp only at h
+    have hp : (2 : K) ^ m ≠ 0 := pow_ne_zero _ two_ne_zero
+    have h2 := ih2 (u - 2 ^ m * ((childIJ (ds.getD m 0) F).1 : K))
+      (v - 2 ^ m * ((childIJ (ds.getD m 0) F).2 : K))
+      (InT_congr (by push_cast; ring) (by push_cast; ring) h)
+    have h3 := subdivision_contained F hF _ hd (u * (1 / 2 ^ m)) (v * (1 / 2 ^ m))
+      (InT_congr (by field_simp) (by field_simp) h2)
+    exact InT_congr (by field_simp; ring) (by field_simp; ring) h3
+
+/-- generalised main lemma: the state in the middle of the inverse walk -/
+theorem locate_aux (ds : List Nat) (hds : ∀ i, ds.getD i 0 < 4) (x y : K) : ∀ (m : Nat), m ≤ ds.length →
+    ∀ (F : Int × Int), IsFlip F → ∀ (P : K × K) (acc : List Nat),
+      InT (anchorOf m ds F).2 (x - P.1 - ((anchorOf m ds F).1.1 : K)) (y - P.2 - ((anchorOf m ds F).1.2 : K)) →
+      locateDigits fieldLits x y m P F acc = (ds.take m ++ acc, (anchorOf m ds F).2) := by
+  intro m
+  induction m with
+  | zero =>
+    intro _ F _ P acc _
+    rewrite [anchorOf_zero]
+    simp [locateDigits]
+  | succ m ih =>
+    intro hm F hF P acc h
+    have hd := hds m
+    have hF' := isFlip_nextF _ hd F hF
+    rewrite [anchorOf_succ] at h ⊢
+    dsimp only at h ⊢
+    have hp : (2 : K) ^ m ≠ 0 := pow_ne_zero _ two_ne_zero
+    have h2 := (anchor_contained ds hds m _ hF').2
+      (x - P.1 - 2 ^ m * ((childIJ (ds.getD m 0) F).1 : K))
+      (y - P.2 - 2 ^ m * ((childIJ (ds.getD m 0) F).2 : K))
+      (InT_congr (by push_cast; ring) (by push_cast; ring) h)
+    have h3 := subdivision F hF _ hd ((x - P.1) * (1 / 2 ^ m)) ((y - P.2) * (1 / 2 ^ m))
+      (InT_congr (by field_simp) (by field_simp) h2)
+    rewrite [locateDigits_succ fieldLits x y m P F acc _ h3, ih (by omega) _ hF', take_succ_getD ds m (by omega)]
+    · simp
+    · refine InT_congr ?_ ?_ h <;> (simp only [fieldLits]; push_cast; ring)
+
+theorem start_eq : (Gen.NO, Gen.NO) = ((1 : Int), (1 : Int)) := by decide
+
+/-- **Main theorem.** For every depth `n` and every list `ds` of `n` base-4 digits, locating any point
+strictly inside the lattice triangle of the anchor built from `ds` returns exactly `ds` and the
+anchor's flips. -/
+theorem locate_of_inTri (n : Nat) (ds : List Nat) (hlen : ds.length = n) (hds : ∀ d ∈ ds, d < 4) (x y : K)
+    (h : InT (accumOffset n ds (0, 0) (Gen.NO, Gen.NO)).2
+      (x - ((kjToIJ (accumOffset n ds (0, 0) (Gen.NO, Gen.NO)).1).1 : K))
+      (y - ((kjToIJ (accumOffset n ds (0, 0) (Gen.NO, Gen.NO)).1).2 : K))) :
+    locateDigits fieldLits x y n ((0 : K), (0 : K)) (Gen.NO, Gen.NO) [] =
+      (ds, (accumOffset n ds (0, 0) (Gen.NO, Gen.NO)).2) := by
+  rewrite [start_eq] at h ⊢
+  have := locate_aux ds (getD_lt4 ds hds) x y n (by omega) (1, 1) (Or.inl rfl) ((0 : K), (0 : K)) []
+    (InT_congr (by simp [anchorOf]) (by simp [anchorOf]) h)
+  rewrite [this]
+  subst hlen
+  simp [anchorOf]
+
+/-- the same with the start pivot written exactly as in `ijToSInternal` -/
+theorem locate_of_inTri' (n : Nat) (ds : List Nat) (hlen : ds.length = n) (hds : ∀ d ∈ ds, d < 4) (x y : K)
+    (h : InT (accumOffset n ds (0, 0) (Gen.NO, Gen.NO)).2
+      (x - ((kjToIJ (accumOffset n ds (0, 0) (Gen.NO, Gen.NO)).1).1 : K))
+      (y - ((kjToIJ (accumOffset n ds (0, 0) (Gen.NO, Gen.NO)).1).2 : K))) :
+    locateDigits (fieldLits : Lits K) x y n (fieldLits.ofInt 0, fieldLits.ofInt 0) (Gen.NO, Gen.NO) [] =
+      (ds, (accumOffset n ds (0, 0) (Gen.NO, Gen.NO)).2) := by
+  have e : (fieldLits : Lits K).ofInt 0 = 0 := Int.cast_zero
+  rewrite [e]
+  exact locate_of_inTri n ds hlen hds x y h
+
+/-- the final flips of the forward walk are a `±1` pair -/
+theorem accumOffset_isFlip (n : Nat) (ds : List Nat) (hds : ∀ d ∈ ds, d < 4) :
+    IsFlip (accumOffset n ds (0, 0) (Gen.NO, Gen.NO)).2 := by
+  rewrite [start_eq]
+  exact (anchor_contained (K := ℚ) ds (getD_lt4 ds hds) n (1, 1) (Or.inl rfl)).1
+
+/-- every triangle `T(F)` is non-empty: an explicit interior point -/
+def interiorPt (F : Int × Int) : K × K :=
+  if F = (1, 1) then (1 / 3, 1 / 3) else if F = (1, -1) then (-1 / 3, 2 / 3)
+  else if F = (-1, 1) then (1 / 3, -2 / 3) else (-1 / 3, -1 / 3)
+
+theorem interiorPt_inT (F : Int × Int) (hF : IsFlip F) :
+    InT F (interiorPt F : K × K).1 (interiorPt F : K × K).2 := by
+  rcases hF with rfl | rfl | rfl | rfl
+  · rewrite [inT_pp]; norm_num [interiorPt]
+  · rewrite [inT_pm]; norm_num [interiorPt]
+  · rewrite [inT_mp]; norm_num [interiorPt]
+  · rewrite [inT_mm]; norm_num [interiorPt]
+
+/-- **(b)** the triangle of every length-`n` digit list lies inside the quintant triangle
+`2^n · T(NO,NO) = { u > 0, v > 0, u + v < 2^n }` -/
+theorem anchor_triangle_in_quintant (n : Nat) (ds : List Nat) (hds : ∀ d ∈ ds, d < 4) (u v : K)
+    (h : InT (accumOffset n ds (0, 0) (Gen.NO, Gen.NO)).2
+      (u - ((kjToIJ (accumOffset n ds (0, 0) (Gen.NO, Gen.NO)).1).1 : K))
+      (v - ((kjToIJ (accumOffset n ds (0, 0) (Gen.NO, Gen.NO)).1).2 : K))) :
+    0 < u ∧ 0 < v ∧ u + v < 2 ^ n := by
+  rewrite [start_eq] at h
+  have h1 := (anchor_contained ds (getD_lt4 ds hds) n (1, 1) (Or.inl rfl)).2 u v h
+  rewrite [inT_pp] at h1
+  obtain ⟨a, b, c⟩ := h1
+  have hp : (0 : K) < 2 ^ n := by positivity
+  have eu : u = u * (1 / 2 ^ n) * 2 ^ n := by field_simp
+  have ev : v = v * (1 / 2 ^ n) * 2 ^ n := by field_simp
+  refine ⟨?_, ?_, ?_⟩
+  · rewrite [eu]; exact mul_pos a hp
+  · rewrite [ev]; exact mul_pos b hp
+  · have := mul_lt_mul_of_pos_right c hp
+    rewrite [one_mul, add_mul, ← eu, ← ev] at this
+    exact this
+
+/-- locating the centroid `offset + interiorPt flips` of the anchor triangle of `ds` returns `ds` -/
+theorem locate_centroid (n : Nat) (ds : List Nat) (hlen : ds.length = n) (hds : ∀ d ∈ ds, d < 4) :
+    locateDigits (fieldLits : Lits K)
+      (((kjToIJ (accumOffset n ds (0, 0) (Gen.NO, Gen.NO)).1).1 : K) +
+        (interiorPt (accumOffset n ds (0, 0) (Gen.NO, Gen.NO)).2).1)
+      (((kjToIJ (accumOffset n ds (0, 0) (Gen.NO, Gen.NO)).1).2 : K) +
+        (interiorPt (accumOffset n ds (0, 0) (Gen.NO, Gen.NO)).2).2)
+      n ((0 : K), (0 : K)) (Gen.NO, Gen.NO) [] = (ds, (accumOffset n ds (0, 0) (Gen.NO, Gen.NO)).2) :=
+  locate_of_inTri n ds hlen hds _ _
+    (InT_congr (by ring) (by ring) (interiorPt_inT _ (accumOffset_isFlip n ds hds)))
+
+end field2
+
+/-! ## corollaries about the integer anchors -/
+
+/-- **(a)** two digit lists with the same anchor (IJ offset and flips) are equal: the anchor
+triangles of distinct curve positions are distinct. -/
+theorem anchor_triangle_injective (n : Nat) (ds ds' : List Nat) (hl : ds.length = n) (hl' : ds'.length = n)
+    (hds : ∀ d ∈ ds, d < 4) (hds' : ∀ d ∈ ds', d < 4)
+    (he : (kjToIJ (accumOffset n ds (0, 0) (Gen.NO, Gen.NO)).1, (accumOffset n ds (0, 0) (Gen.NO, Gen.NO)).2) =
+      (kjToIJ (accumOffset n ds' (0, 0) (Gen.NO, Gen.NO)).1, (accumOffset n ds' (0, 0) (Gen.NO, Gen.NO)).2)) :
+    ds = ds' := by
+  have e1 := congrArg Prod.fst he
+  have e2 := congrArg Prod.snd he
+  dsimp only at e1 e2
+  have hF := accumOffset_isFlip n ds hds
+  have hp := interiorPt_inT (K := ℚ) _ hF
+  have h1 := locate_of_inTri (K := ℚ) n ds hl hds
+    ((kjToIJ (accumOffset n ds (0, 0) (Gen.NO, Gen.NO)).1).1 + (interiorPt (accumOffset n ds (0, 0) (Gen.NO, Gen.NO)).2).1)
+    ((kjToIJ (accumOffset n ds (0, 0) (Gen.NO, Gen.NO)).1).2 + (interiorPt (accumOffset n ds (0, 0) (Gen.NO, Gen.NO)).2).2)
+    (InT_congr (by ring) (by ring) hp)
+  have h2 := locate_of_inTri (K := ℚ) n ds' hl' hds'
+    ((kjToIJ (accumOffset n ds (0, 0) (Gen.NO, Gen.NO)).1).1 + (interiorPt (accumOffset n ds (0, 0) (Gen.NO, Gen.NO)).2).1)
+    ((kjToIJ (accumOffset n ds (0, 0) (Gen.NO, Gen.NO)).1).2 + (interiorPt (accumOffset n ds (0, 0) (Gen.NO, Gen.NO)).2).2)
+    (by rewrite [← e1, ← e2]; exact InT_congr (by ring) (by ring) hp)
+  exact congrArg Prod.fst (h1.symm.trans h2)
+
+/-- **(c)** integer bounds on the anchor offset `(oi, oj)` (IJ) of every length-`n` digit list: it is a
+lattice point of the closed quintant triangle, with the sharper one-sided bounds that depend on the
+flips. -/
+theorem anchor_offset_bounds (n : Nat) (ds : List Nat) (hds : ∀ d ∈ ds, d < 4) :
+    let A := accumOffset n ds (0, 0) (Gen.NO, Gen.NO)
+    let o := kjToIJ A.1
+    0 ≤ o.1 ∧ 0 ≤ o.2 ∧ o.1 + o.2 ≤ 2 ^ n ∧
+      (A.2.1 = 1 → o.1 + o.2 < 2 ^ n) ∧ (A.2.2 = -1 → 1 ≤ o.1) ∧ (A.2.1 = -1 → 1 ≤ o.2) := by
+  intro A o
+  have hF : IsFlip A.2 := accumOffset_isFlip n ds hds
+  have hp := interiorPt_inT (K := ℚ) _ hF
+  have hq := anchor_triangle_in_quintant (K := ℚ) n ds hds
+    ((o.1 : ℚ) + (interiorPt A.2).1) ((o.2 : ℚ) + (interiorPt A.2).2)
+    (InT_congr (by ring) (by ring) hp)
+  obtain ⟨q1, q2, q3⟩ := hq
+  have c2 : ((2 ^ n : Int) : ℚ) = 2 ^ n := by push_cast; rfl
+  rcases hF with e | e | e | e <;> rewrite [e] at q1 q2 q3 <;> rewrite [e] <;>
+    norm_num [interiorPt] at q1 q2 q3
+  · have a1 : ((-1 : Int) : ℚ) < (o.1 : ℚ) := by push_cast; linarith
+    have a2 : ((-1 : Int) : ℚ) < (o.2 : ℚ) := by push_cast; linarith
+    have a3 : ((o.1 + o.2 : Int) : ℚ) < ((2 ^ n : Int) : ℚ) := by push_cast; linarith
+    have := Int.cast_lt.mp a1; have := Int.cast_lt.mp a2; have := Int.cast_lt.mp a3
+    refine ⟨by omega, by omega, by omega, by omega, by omega, by omega⟩
+  · have a1 : ((0 : Int) : ℚ) < (o.1 : ℚ) := by push_cast; linarith
+    have a2 : ((-1 : Int) : ℚ) < (o.2 : ℚ) := by push_cast; linarith
+    have a3 : ((o.1 + o.2 : Int) : ℚ) < ((2 ^ n : Int) : ℚ) := by push_cast; linarith
+    have := Int.cast_lt.mp a1; have := Int.cast_lt.mp a2; have := Int.cast_lt.mp a3
+    refine ⟨by omega, by omega, by omega, by omega, by omega, by omega⟩
+  · have a1 : ((-1 : Int) : ℚ) < (o.1 : ℚ) := by push_cast; linarith
+    have a2 : ((0 : Int) : ℚ) < (o.2 : ℚ) := by push_cast; linarith
+    have a3 : ((o.1 + o.2 : Int) : ℚ) < ((2 ^ n + 1 : Int) : ℚ) := by push_cast; linarith
+    have := Int.cast_lt.mp a1; have := Int.cast_lt.mp a2; have := Int.cast_lt.mp a3
+    refine ⟨by omega, by omega, by omega, by omega, by omega, by omega⟩
+  · have a1 : ((0 : Int) : ℚ) < (o.1 : ℚ) := by push_cast; linarith
+    have a2 : ((0 : Int) : ℚ) < (o.2 : ℚ) := by push_cast; linarith
+    have a3 : ((o.1 + o.2 : Int) : ℚ) < ((2 ^ n + 1 : Int) : ℚ) := by push_cast; linarith
+    have := Int.cast_lt.mp a1; have := Int.cast_lt.mp a2; have := Int.cast_lt.mp a3
+    refine ⟨by omega, by omega, by omega, by omega, by omega, by omega⟩
+
+/-! ## non-vacuity over `ℚ` -/
+
+/-- the anchor of the digit list `[3,1]` (value `1·4 + 3 = 7`, depth 2): IJ offset `(1,2)`, flips `(YES,YES)` -/
+example : (kjToIJ (accumOffset 2 [3, 1] (0, 0) (Gen.NO, Gen.NO)).1, (accumOffset 2 [3, 1] (0, 0) (Gen.NO, Gen.NO)).2)
+    = ((1, 2), (Gen.YES, Gen.YES)) := by decide
+
+/-- `locate_of_inTri` instantiated: the point `(2/3, 5/3) = (1,2) + (-1/3,-1/3)` lies in the anchor
+triangle of `[3,1]`, hence is located at `[3,1]`. -/
+example : locateDigits fieldLits (2 / 3 : ℚ) (5 / 3) 2 ((0 : ℚ), (0 : ℚ)) (Gen.NO, Gen.NO) [] = ([3, 1], (-1, -1)) := by
+  have e : accumOffset 2 [3, 1] (0, 0) (Gen.NO, Gen.NO) = ((3, 2), (-1, -1)) := by decide
+  have h := locate_of_inTri (K := ℚ) 2 [3, 1] rfl (by decide) (2 / 3) (5 / 3)
+  rewrite [e] at h
+  exact h (by rw [inT_mm]; norm_num [kjToIJ])
+
+/-- the same fact by direct evaluation of the model in `ℚ` (independent of the theorem) -/
+example : locateDigits fieldLits (2 / 3 : ℚ) (5 / 3) 2 ((0 : ℚ), (0 : ℚ)) (Gen.NO, Gen.NO) [] = ([3, 1], (-1, -1)) := by
+  decide +kernel
+
+/-- non-vacuity of `anchor_triangle_injective` / `anchor_offset_bounds`: `[3,1]` and `[1,3]` have different anchors -/
+example : (kjToIJ (accumOffset 2 [1, 3] (0, 0) (Gen.NO, Gen.NO)).1, (accumOffset 2 [1, 3] (0, 0) (Gen.NO, Gen.NO)).2)
+    ≠ (kjToIJ (accumOffset 2 [3, 1] (0, 0) (Gen.NO, Gen.NO)).1, (accumOffset 2 [3, 1] (0, 0) (Gen.NO, Gen.NO)).2) := by
+  decide
+
 end A5.HilbertLocate
